@@ -347,7 +347,8 @@ class AsyncBaseClient:
         type_ = message_dict.get("type")
         payload = message_dict.get("payload", {})
 
-        if not type_ or type_ not in {t.value for t in GraphQLTransportWSMessageType}:
+        message_types = {t.value for t in GraphQLTransportWSMessageType}
+        if not isinstance(type_, str) or type_ not in message_types:
             raise GraphQLClientInvalidMessageFormat(message=message)
 
         if expected_type and expected_type != type_:
